@@ -64,46 +64,47 @@ def _compute_thl_try_speciation(
     table: THLTable,
     costs: CostValues,
 ) -> None:
+    spe_cost = costs[NodeEvent.SPECIATION]
     loss_cost = costs[EdgeEvent.FULL_LOSS]
 
     left_species, right_species = root_species.children
     left_node, right_node = root_node.children
 
     # Optimal costs obtained by mapping the left or right node below
-    # the left or right species
+    # the left or right species (including the cost of the losses
+    # on the way down from the child species)
     min_ltl = table.entry()
     min_rtl = table.entry()
     min_ltr = table.entry()
     min_rtr = table.entry()
 
     for left_child in left_species.traverse():
+        dist_cost = loss_cost * (species_lca.distance(root_species, left_child) - 1)
         min_ltl.update(
             Candidate(
-                table[left_node][left_child].value(),
+                table[left_node][left_child].value() + dist_cost,
                 left_child,
             )
         )
         min_rtl.update(
             Candidate(
-                table[right_node][left_child].value(),
+                table[right_node][left_child].value() + dist_cost,
                 left_child,
             )
         )
 
     for right_child in right_species.traverse():
-        min_ltr.update(Candidate(table[left_node][right_child].value(), right_child))
-        min_rtr.update(Candidate(table[right_node][right_child].value(), right_child))
+        dist_cost = loss_cost * (species_lca.distance(root_species, right_child) - 1)
+        min_ltr.update(
+            Candidate(table[left_node][right_child].value() + dist_cost, right_child)
+        )
+        min_rtr.update(
+            Candidate(table[right_node][right_child].value() + dist_cost, right_child)
+        )
 
     def spe_combinator(left, right):
         return Candidate(
-            left.value
-            + right.value
-            + loss_cost
-            * (
-                species_lca.distance(root_species, left.info)
-                + species_lca.distance(root_species, right.info)
-                - 2
-            ),
+            spe_cost + left.value + right.value,
             MappingInfo(left.info, right.info),
         )
 
@@ -127,7 +128,8 @@ def _compute_thl_try_duplication_transfer(
     left_node, right_node = root_node.children
 
     # Optimal costs obtained by mapping the left or right node inside
-    # root_species’ subtree or outside of it
+    # root_species’ subtree (including the cost of the losses on the way
+    # down from root_species) or outside of it
     min_ltc = table.entry()
     min_lts = table.entry()
     min_rtc = table.entry()
@@ -135,11 +137,18 @@ def _compute_thl_try_duplication_transfer(
 
     for other_species in species_lca.tree.traverse():
         if species_lca.is_ancestor_of(root_species, other_species):
+            dist_cost = loss_cost * species_lca.distance(root_species, other_species)
             min_ltc.update(
-                Candidate(table[left_node][other_species].value(), other_species)
+                Candidate(
+                    table[left_node][other_species].value() + dist_cost,
+                    other_species,
+                )
             )
             min_rtc.update(
-                Candidate(table[right_node][other_species].value(), other_species)
+                Candidate(
+                    table[right_node][other_species].value() + dist_cost,
+                    other_species,
+                )
             )
         elif not species_lca.is_ancestor_of(other_species, root_species):
             min_lts.update(
@@ -152,40 +161,21 @@ def _compute_thl_try_duplication_transfer(
     # Try mapping as a duplication
     def dup_combinator(left, right):
         return Candidate(
-            dup_cost
-            + left.value
-            + right.value
-            + loss_cost
-            * (
-                species_lca.distance(root_species, left.info)
-                + species_lca.distance(root_species, right.info)
-            ),
+            dup_cost + left.value + right.value,
             MappingInfo(left.info, right.info),
         )
 
     # Try mapping as a horizontal transfer
-    def hgt_l_combinator(left, right):
+    def hgt_combinator(left, right):
         return Candidate(
-            hgt_cost
-            + left.value
-            + right.value
-            + loss_cost * species_lca.distance(root_species, left.info),
-            MappingInfo(left.info, right.info),
-        )
-
-    def hgt_r_combinator(left, right):
-        return Candidate(
-            hgt_cost
-            + left.value
-            + right.value
-            + loss_cost * species_lca.distance(root_species, right.info),
+            hgt_cost + left.value + right.value,
             MappingInfo(left.info, right.info),
         )
 
     table[root_node][root_species].update(
         *min_ltc.combine(min_rtc, dup_combinator),
-        *min_lts.combine(min_rtc, hgt_r_combinator),
-        *min_ltc.combine(min_rts, hgt_l_combinator),
+        *min_lts.combine(min_rtc, hgt_combinator),
+        *min_ltc.combine(min_rts, hgt_combinator),
     )
 
 
